@@ -96,24 +96,29 @@ HISTORY = {
  'C13-2': 'caught by C05 at first; by C13 too after a flattened map method and fixed corner pairs were added',
  'C07-1': 'caught by the classification part (Paging.tla) that had just been added to C07',
 }
-for d in sorted(glob.glob(os.path.join(VERIF, 'seeded', '*'))):
-    name = os.path.basename(d)
-    rp = os.path.join(d, 'result.json')
-    if name not in DESC or not os.path.exists(rp):
-        continue
-    txt = open(rp).read()
-    try:
-        r = json.loads(txt[txt.index('{\n "name"'):])
-    except Exception:
-        continue
-    pid, what, needs = DESC[name]
-    caught = {k: v['rc'] == 1 for k, v in r.get('checks', {}).items()}
-    meta = dict(id=name, breaks_property=pid, change=what, needs_to_manifest=needs,
-                written_by='independent sub-agent given only the property text and a private worktree',
-                confirmed=dict(pinned_suite=r.get('pytest'), demo_on_clean_tree_exit=r.get('demo_clean_rc'), demo_with_change_exit=r.get('demo_patched_rc'),
-                               patch_applies=r.get('apply_rc') == 0),
-                ran=[f"tools/seedcheck.py {name} seeded/{name}/patch.diff seeded/{name}/demo.py {','.join(r.get('props', []))} --tier {r.get('tier')}"],
-                caught_by={k: dict(caught=v, first_keys=r['checks'][k]['keys'][:3]) for k, v in caught.items()},
-                history=HISTORY.get(name, 'caught by the checks as they were when the change was first evaluated'))
-    json.dump(meta, open(os.path.join(d, 'meta.json'), 'w'), indent=1)
-    print(name, caught)
+def main():
+    for d in sorted(glob.glob(os.path.join(VERIF, 'seeded', '*'))):
+        name = os.path.basename(d)
+        rp = os.path.join(d, 'result.json')
+        if name not in DESC or not os.path.exists(rp):
+            continue
+        txt = open(rp).read()
+        try:
+            r = json.loads(txt[txt.index('{\n "name"'):])
+        except Exception:
+            continue
+        pid, what, needs = DESC[name]
+        caught = {k: v['rc'] == 1 for k, v in r.get('checks', {}).items()}
+        meta = dict(id=name, breaks_property=pid, change=what, needs_to_manifest=needs,
+                    written_by='independent sub-agent given only the property text and a private worktree',
+                    confirmed=dict(pinned_suite=r.get('pytest'), demo_on_clean_tree_exit=r.get('demo_clean_rc'), demo_with_change_exit=r.get('demo_patched_rc'),
+                                   patch_applies=r.get('apply_rc') == 0),
+                    ran=[f"tools/seedcheck.py {name} seeded/{name}/patch.diff seeded/{name}/demo.py {','.join(r.get('props', []))} --tier {r.get('tier')}"],
+                    caught_by={k: dict(caught=v, first_keys=r['checks'][k]['keys'][:3]) for k, v in caught.items()},
+                    history=HISTORY.get(name, 'caught by the checks as they were when the change was first evaluated'))
+        json.dump(meta, open(os.path.join(d, 'meta.json'), 'w'), indent=1)
+        print(name, caught)
+
+
+if __name__ == '__main__':
+    main()
